@@ -129,6 +129,14 @@ func runInto(t *testing.T, sc *Scenario, res *Result) {
 				for si := range sc.Tasks[ti].Steps {
 					if sc.Tasks[ti].Steps[si].Kind == "listen" {
 						h.qs[[2]int{ti, si}] = make(chan os.Signal, 1)
+						if sc.Tasks[ti].Steps[si].SameQ {
+							for pj := si - 1; pj >= 0; pj-- {
+								if sc.Tasks[ti].Steps[pj].Kind == "listen" {
+									h.qs[[2]int{ti, si}] = h.qs[[2]int{ti, pj}]
+									break
+								}
+							}
+						}
 					}
 				}
 			}
@@ -614,7 +622,7 @@ func (l *lst) OnError(err error) bool {
 	}
 	l.h.point("on-error", -1, map[string]any{"l": l.id, "err": msg})
 	l.hold()
-	return true
+	return !l.st.OnErrFalse
 }
 
 func (h *harness) listen(ti, si int, st *Step) {
